@@ -61,6 +61,8 @@ class Env:
 
     def default_action(self, idle=False):
         s = self.sess
+        if s.actions is not None:
+            return False  # X2: releases are explicit actions
         if idle:
             # nobody is blocked in a call: the environment only acts while the caller waits
             return False
@@ -118,6 +120,9 @@ class Session:
         self.dpr = []  # RE.deferred_pause_requested sampled at every msg_hook call
         self.pos_info = {}
         self.unwind_at = sch.get("unwind_at")
+        # X2 (explicit-state search): the whole execution is driven by an action list
+        # 'step' | ('inj', event) | ('rel', i) | ('dec', decision); when it is exhausted the execution is unwound
+        self.actions = list(sch["actions"]) if "actions" in sch else None
 
     # ------------------------------------------------------------------ events
     def _event_fn(self, ev):
@@ -226,10 +231,16 @@ class Session:
                         raise Unwind()
 
                 sched.stepping_hook = hook
+            if self.actions is not None:
+                sched.stepping_hook = self._x2_hook
             self._script(RE, Msg, RunEngineInterrupted)
             obs.outcome = "ok"
+            if self.actions is not None:
+                obs.extra["x2"] = self._x2_snapshot("end")
         except Unwind:
             obs.outcome = "unwound"
+            if self.actions is not None:
+                obs.extra["x2"] = self._x2_snapshot("unwound")
         except Deadlock:
             obs.outcome = "deadlock"
         except Livelock:
@@ -357,6 +368,27 @@ class Session:
             self.plan_return = ret
             return ret
 
+    def _x2_hook(self):
+        """Called before every loop step: consume the action list up to and including the next 'step'."""
+        while True:
+            if not self.actions:
+                raise Unwind()
+            a = self.actions.pop(0)
+            if a == "step" or a[0] == "step":
+                return
+            if a[0] == "inj":
+                ev = tuple(a[1])
+                self.sched.inject_now(self._label(ev), self._event_fn(ev))
+            elif a[0] == "rel":
+                self.release_index(a[1])
+            else:
+                raise HarnessError(f"history has {a!r} while the caller is blocked")
+
+    def _x2_snapshot(self, how):
+        from bsv.explore.statespace import snapshot
+
+        return snapshot(self, how)
+
     def _logged(self, gen, on_error):
         """Drive ``gen`` by hand and log, for every yield, what the engine sent or threw there.
 
@@ -407,11 +439,26 @@ class Session:
             guard += 1
             if guard > 12:
                 raise Livelock()
-            dec = self.decisions[k] if k < len(self.decisions) else "resume"
+            if self.actions is not None:
+                if not self.actions:
+                    self.awaiting_decision = True
+                    raise Unwind()
+                a = self.actions.pop(0)
+                if a[0] != "dec":
+                    raise HarnessError(f"history has {a!r} where a caller decision is needed")
+                dec = a[1]
+            else:
+                dec = self.decisions[k] if k < len(self.decisions) else "resume"
             k += 1
             rec = self._call(dec, getattr(RE, dec))
         self.ndecisions = k
         self.n_main = self.loop.nsteps - self.base  # injection positions beyond this would land in the probe call
+        if self.actions is not None:
+            # X2: the main call chain is over - terminal node; the probe runs uncontrolled
+            if self.actions:
+                raise HarnessError(f"history continues past the end of the call chain: {self.actions[:3]}")
+            self.x2_terminal = True
+            self.sched.stepping_hook = None
         if scn.probe and str(RE.state) == "idle":
             self.timeline.append(("probe",))
             self._call("probe", lambda: RE(scn.probe_plan(self.d) if hasattr(scn, "probe_plan") else [Msg("null")]))
